@@ -122,7 +122,7 @@ func main() {
 		}
 		r, err := rig.NewStepRig(rig.StepCfg{Role: j.role, HeartBtInt: 10, Limits: &session.IntLimits{Min: 5, Max: 60}, Counter: st, Messages: st,
 			OnLogon: func(ls *session.LogonSettings) error {
-				if ls.Username == rig.BadUser {
+				if !rig.Approve(ls.Username, ls.Password) {
 					return fmt.Errorf("refused")
 				}
 				return nil
